@@ -24,6 +24,11 @@ func TokKind(tok string) string {
 type menuOpts struct {
 	thorough bool
 	shards   int
+	// extra are additional ordinary holders (e.g. z1, whose address ends in 0xff)
+	extra [][]byte
+	// sysFlavours adds pause / unpause messages addressed to the shard-flavoured system account
+	// address (0xff..ff || shard id), the form the system contract's broadcast uses
+	sysFlavours bool
 }
 
 func held(w *world.World, a []byte, suffix string) int64 {
@@ -54,7 +59,7 @@ func senders(o menuOpts) [][]byte {
 	if o.shards > 2 {
 		s = append(s, uni.E2)
 	}
-	return s
+	return append(s, o.extra...)
 }
 
 func dests(o menuOpts) [][]byte {
@@ -227,6 +232,7 @@ func freezeMenu(w *world.World, o menuOpts, withWipe bool) []world.Action {
 	if o.shards > 1 {
 		accts = append(accts, uni.C1)
 	}
+	accts = append(accts, o.extra...)
 	for _, a := range accts {
 		acc := w.Get(a)
 		if spec.Frozen(acc, tF) {
@@ -243,10 +249,13 @@ func freezeMenu(w *world.World, o menuOpts, withWipe bool) []world.Action {
 	}
 	for sh := 0; sh < o.shards; sh++ {
 		for _, tok := range [][]byte{uni.F, uni.S} {
+			fn := vmcommon.BuiltInFunctionESDTPause
 			if spec.Paused(w, uint32(sh), string(tok)) {
-				acts = append(acts, uni.PauseCall(sh, vmcommon.BuiltInFunctionESDTUnPause, tok))
-			} else {
-				acts = append(acts, uni.PauseCall(sh, vmcommon.BuiltInFunctionESDTPause, tok))
+				fn = vmcommon.BuiltInFunctionESDTUnPause
+			}
+			acts = append(acts, uni.PauseCall(sh, fn, tok))
+			if o.sysFlavours && o.shards > 1 {
+				acts = append(acts, uni.PauseCallAt(sh, fn, tok))
 			}
 		}
 	}
